@@ -4,6 +4,7 @@ import (
 	"encoding/base64"
 	"encoding/hex"
 	"fmt"
+	"math"
 	"os"
 	"path/filepath"
 	"strconv"
@@ -327,6 +328,22 @@ func c18Case(c *Ctx) {
 				calls++
 				if err != nil {
 					continue
+				}
+				if canary && c.R.Chance(1, 5) { // a caller-written separator function with an odd idea of its own entropy
+					sepv := strings.Join(c.R.ShuffleStrings(canaryChars)[:2], "")
+					ent := []float64{math.Inf(1), math.Inf(-1), math.NaN(), -3, 1e30}[c.R.Intn(5)]
+					b.Rec.SeparatorFunc = func() (string, spg.FloatE) { return sepv, spg.FloatE(ent) }
+					add(sepv, true)
+					if c.R.Bool() { // ... or one that panics on a later call, the caller recovering
+						n := 0
+						b.Rec.SeparatorFunc = func() (string, spg.FloatE) {
+							n++
+							if n == 2 {
+								panic("separator function failed")
+							}
+							return sepv, 0
+						}
+					}
 				}
 				script := make([]uint32, 4*w.Length+6)
 				for i := range script {
